@@ -119,6 +119,8 @@ def execute(job):
             s = c["s"][0] / c["s"][1]
             A = pose_mat(c["A"], u)
             S = lie.sim3(A[:3, :3], A[:3, 3], s)
+            if c.get("intdtype"):
+                S = np.array(np.round(S), dtype=int) if u == 1.0 else S
             inv = lie.sim3_inverse(S)
             tol = 1e-12 * max(1.0, float(np.max(np.abs(S))))
             return {"isid": bool(np.max(np.abs(S @ inv - np.eye(4))) < tol and np.max(np.abs(inv @ S - np.eye(4))) < tol),
@@ -138,9 +140,14 @@ def execute(job):
                 R = R.copy()
                 R[0, 1] += 0.001 if R[0, 1] == 0 else -0.001
                 P = geom.se3(R, P[:3, 3])
-            elif c["what"] == "badrow":
+            elif c["what"] == "smallshear":       # a 10 % shear of a rotation block scaled by 2^-13: not a similarity
+                R = R.copy()
+                R[0, 1] += 0.1 if R[0, 1] == 0 else -0.1
+                R = 2.0 ** -13 * R
+                P = geom.se3(R, P[:3, 3])
+            elif c["what"] in ("badrow", "tinyrow"):
                 P = P.copy()
-                P[3, n % 3] = 1e-3
+                P[3, n % 3] = 1e-3 if c["what"] == "badrow" else [1e-9, 1e-12, 3e-10][n % 3]
                 so3 = False      # the 3x3 block itself is fine; only the 4x4 tests are judged for this class
                 return {"so3": so3, "se3": bool(lie.is_se3(P)), "sim3": bool(lie.is_sim3(P))}
             sim3 = lie.is_sim3(P)
